@@ -57,5 +57,6 @@ contract("helpers.disambiguate_reporters",
     types={"citations": "seq[obj<CitationBase>]"}, returns="seq[obj<CitationBase>]", prop="C18",
     ensures={
         # exactly the citations that are not resource citations or have a guessed edition, in the same order
+        "notnone": "result is not None",
         "only_filters": "is_filter(result, citations, lambda c: not isinstance(c, ResourceCitation) or truthy(c.edition_guess))",
     })
